@@ -187,3 +187,37 @@ Proof.
     (unfold launch_ok, good_geom; cbn [gx gy gz sx sy sz];
      repeat match goal with |- _ /\ _ => split end; try lia; try exact Hc; vm_compute; congruence).
 Qed.
+
+(** ** SGPR slots of the work-group IDs
+
+    Both initialisers walk the same sequence of INDEPENDENT enables (private
+    segment buffer 4 dwords, dispatch ptr 2, queue ptr 2, kernarg segment ptr
+    2, dispatch id 2, flat scratch init 2, private segment size 1, grid
+    work-group count X/Y/Z 1 each, work-group ID X/Y/Z 1 each).
+    [sgpr_slot_rule]: for EVERY list of inputs and EVERY combination of their
+    enables, an enabled input is found at the dword offset that equals the
+    dwords of the enabled inputs before it.  [work_group_id_sgprs]: for every
+    enable mask (all 2^13 combinations), each enabled work-group ID is in the
+    SGPR the ABI assigns and holds IDX / IDY / IDZ of the work-group. *)
+Theorem sgpr_slot_rule : forall ins k ptr f i v j,
+  Forall sized ins -> nth_error ins k = Some i -> in_en i = true -> in_val i = Some v -> (j < in_size i)%nat ->
+  place ptr ins f (ptr + slot_of k ins + j) = nth j v 0.
+Proof. exact place_slot. Qed.
+Print Assumptions sgpr_slot_rule.
+
+Theorem work_group_id_sgprs : forall m g w,
+  let ins := sgpr_inputs m g w PACKET_ADDR KERNARG_ADDR in
+  (Z.testbit m 10 = true -> nth (slot_of 10 ins) (sgpr_file m g w) 0 = u32 (idx w)) /\
+  (Z.testbit m 11 = true -> nth (slot_of 11 ins) (sgpr_file m g w) 0 = u32 (idy w)) /\
+  (Z.testbit m 12 = true -> nth (slot_of 12 ins) (sgpr_file m g w) 0 = u32 (idz w)).
+Proof. exact wg_id_sgprs. Qed.
+Print Assumptions work_group_id_sgprs.
+
+(** X and Z enabled, Y disabled, after a kernarg pointer: Z is in s3 *)
+Example id_z_follows_id_x_when_y_is_disabled :
+  let m := 5128 (* bits 3, 10, 12 *) in
+  let w := mkWG 7 8 9 1 1 1 in
+  let g := mkGeom 20 20 20 1 1 1 in
+  slot_of 12 (sgpr_inputs m g w PACKET_ADDR KERNARG_ADDR) = 3%nat /\
+  firstn 5 (sgpr_file m g w) = [19088640; 2; 7; 9; UNWRITTEN].
+Proof. vm_compute. auto. Qed.
